@@ -512,3 +512,394 @@ Proof.
   assert (0 < inject_Z sf)%Q by (replace 0%Q with (inject_Z 0) by reflexivity; rewrite <- Zlt_Qlt; lia).
   apply (Qmult_inj_r _ _ (inject_Z sf)); [lra | exact E].
 Qed.
+
+(* ================================================================== the intervals of a whole run *)
+
+Fixpoint iter_scale (sf : Z) (k : nat) (u : Q * Q) : Q * Q :=
+  match k with O => u | S k' => iter_scale sf k' (scale_interval sf u) end.
+
+Lemma iter_scale_val sf k : forall u,
+  (fst (iter_scale sf k u) == fst u * inject_Z (sf ^ Z.of_nat k))%Q /\
+  (snd (iter_scale sf k u) == snd u * inject_Z (sf ^ Z.of_nat k))%Q.
+Proof.
+  induction k as [|k IH]; intros u.
+  - cbn [iter_scale]. change (Z.of_nat 0) with 0. rewrite Z.pow_0_r. split; ring.
+  - cbn [iter_scale]. destruct (IH (scale_interval sf u)) as [A B]. rewrite A, B.
+    rewrite Nat2Z.inj_succ, Z.pow_succ_r by lia. rewrite inject_Z_mult.
+    unfold scale_interval, qz. cbn [fst snd]. split; ring.
+Qed.
+
+(* the i-th element of finer_grids is computed from level i with the user interval scaled
+   i + 1 times *)
+Lemma finer_grids_nth ib marge sf : forall lvls user i l,
+  nth_error lvls i = Some l ->
+  nth_error (finer_grids ib marge sf user lvls) i =
+  Some (let u := iter_scale sf (S i) user in
+        (GMap (next_grids ib (lv_ws l) marge sf (fst (lv_left l)) (snd (lv_left l)) (fst u) (snd u)),
+         option_map (fun dv => GMap (next_grids ib (lv_ws l) marge sf (fst dv) (snd dv)
+                                                 (fst (right_interval u)) (snd (right_interval u))))
+                    (lv_right l))).
+Proof.
+  induction lvls as [|l0 rest IH]; intros user i l Hn.
+  - destruct i; discriminate.
+  - destruct i as [|i].
+    + cbn [nth_error] in Hn. injection Hn as ->. reflexivity.
+    + cbn [nth_error] in Hn. cbn [finer_grids nth_error]. rewrite (IH _ i l Hn). reflexivity.
+Qed.
+
+Lemma finer_grids_length ib marge sf : forall lvls user,
+  length (finer_grids ib marge sf user lvls) = length lvls.
+Proof. induction lvls; intros; cbn [finer_grids length]; auto. Qed.
+
+Lemma run_grids_length ib marge sf dmin dmax H W n wr lvls :
+  length (run_grids ib marge sf dmin dmax H W n wr lvls) = S (length lvls).
+Proof. unfold run_grids. cbn [length]. rewrite finer_grids_length. reflexivity. Qed.
+
+(* user interval after run_prepare and k multiplications = the user interval seen from level n - k *)
+Lemma user_at_level dmin dmax sf n k : 1 <= sf -> (k <= n)%nat ->
+  let u := iter_scale sf k (run_prepare_interval dmin dmax sf n) in
+  (fst u == fst (user_interval dmin dmax sf (n - k)))%Q /\
+  (snd u == snd (user_interval dmin dmax sf (n - k)))%Q.
+Proof.
+  intros Hsf Hk u. unfold u. destruct (iter_scale_val sf k (run_prepare_interval dmin dmax sf n)) as [A B].
+  rewrite A, B. unfold run_prepare_interval, user_interval, qz. cbn [fst snd].
+  assert (E : sf ^ Z.of_nat n = sf ^ Z.of_nat (n - k) * sf ^ Z.of_nat k).
+  { rewrite <- Z.pow_add_r by lia. f_equal. lia. }
+  rewrite E, inject_Z_mult.
+  pose proof (pow_inj_pos sf (n - k) Hsf). pose proof (pow_inj_pos sf k Hsf).
+  split; field; split; lra.
+Qed.
+
+(* the first execution: constant grids holding the user interval / sf^(n-1), mirrored on the right *)
+Theorem coarsest_interval ib marge sf dmin dmax H W n wr lvls : 1 <= sf -> (1 <= n)%nat ->
+  exists a b, hd_error (run_grids ib marge sf dmin dmax H W n wr lvls)
+              = Some (GConst H W (a, b), if wr then Some (GConst H W (mirrored (a, b))) else None) /\
+    (a == fst (user_interval dmin dmax sf (n - 1)))%Q /\
+    (b == snd (user_interval dmin dmax sf (n - 1)))%Q.
+Proof.
+  intros Hsf Hn. unfold run_grids. cbn [hd_error].
+  set (i0 := run_prepare_interval dmin dmax sf n).
+  exists (fst (scale_interval sf i0)), (snd (scale_interval sf i0)). split.
+  - unfold mirrored, right_interval. destruct (scale_interval sf i0). reflexivity.
+  - exact (user_at_level dmin dmax sf n 1 Hsf Hn).
+Qed.
+
+Lemma user_next dmin dmax sf s : 1 <= sf ->
+  (fst (user_interval dmin dmax sf (S s)) * inject_Z sf == fst (user_interval dmin dmax sf s))%Q /\
+  (snd (user_interval dmin dmax sf (S s)) * inject_Z sf == snd (user_interval dmin dmax sf s))%Q.
+Proof.
+  intros Hsf. unfold user_interval. cbn [fst snd].
+  rewrite Nat2Z.inj_succ, Z.pow_succ_r by lia. rewrite inject_Z_mult.
+  pose proof (pow_inj_pos sf s Hsf).
+  assert (0 < inject_Z sf)%Q by (replace 0%Q with (inject_Z 0) by reflexivity; rewrite <- Zlt_Qlt; lia).
+  split; field; split; lra.
+Qed.
+
+(* well-formedness of the products of a level, as the theorems need them *)
+Definition level_ok (ws : Z) (D : arr (option Q)) : Prop :=
+  ws = 2 * offset ws + 1 /\ 0 <= offset ws /\ ws <= nr D /\ ws <= nc D.
+
+(* level i of the list (coarse scale s + 1, s + 1 = n - 1 - i) gives the grids of execution
+   i + 1 (scale s).  [guard] : sf^(s+1) divides both user bounds. *)
+Theorem finer_interval_run marge sf dmin dmax H W n wr lvls i l s :
+  1 <= sf -> n = S (length lvls) -> nth_error lvls i = Some l -> (s + 1 = n - 1 - i)%nat ->
+  (sf ^ Z.of_nat (S s) | dmin) -> (sf ^ Z.of_nat (S s) | dmax) ->
+  exists g gr,
+    nth_error (run_grids IB marge sf dmin dmax H W n wr lvls) (S i) = Some (GMap g, gr) /\
+    (level_ok (lv_ws l) (fst (lv_left l)) ->
+     let D := fst (lv_left l) in let V := snd (lv_left l) in let u := user_interval dmin dmax sf s in
+     nr g = sf * nr D /\ nc g = sf * nc D /\
+     finer_spec (lv_ws l) marge sf (nr D) (nc D) (px D) (px V) (fst u) (snd u) (sf * nr D) (sf * nc D) (px g)) /\
+    (forall dv, lv_right l = Some dv -> level_ok (lv_ws l) (fst dv) ->
+     let D := fst dv in let V := snd dv in let u := mirrored (user_interval dmin dmax sf s) in
+     exists g', gr = Some (GMap g') /\ nr g' = sf * nr D /\ nc g' = sf * nc D /\
+     finer_spec (lv_ws l) marge sf (nr D) (nc D) (px D) (px V) (fst u) (snd u) (sf * nr D) (sf * nc D) (px g')).
+Proof.
+  intros Hsf Hn Hl Hs G1 G2.
+  assert (Hi : (i < length lvls)%nat) by (apply nth_error_Some; congruence).
+  unfold run_grids. cbn [nth_error].
+  rewrite (finer_grids_nth IB marge sf lvls _ i l Hl). cbv zeta.
+  set (u := iter_scale sf (S i) (run_prepare_interval dmin dmax sf n)).
+  destruct (user_at_level dmin dmax sf n (S i) Hsf ltac:(lia)) as [U1 U2]. fold u in U1, U2.
+  replace (n - S i)%nat with (S s) in U1, U2 by lia.
+  destruct (user_next dmin dmax sf s Hsf) as [N1 N2].
+  assert (I1 : integral (fst u)).
+  { eapply integral_compat; [symmetry; exact U1|]. apply integral_user; assumption. }
+  assert (I2 : integral (snd u)).
+  { eapply integral_compat; [symmetry; exact U2|]. apply integral_user; assumption. }
+  eexists. eexists. split; [reflexivity|]. split.
+  - intros (O1 & O2 & O3 & O4). cbv zeta. split; [reflexivity|]. split; [reflexivity|].
+    eapply finer_spec_compat; [| |apply next_grids_guarded; try assumption; try lia].
+    + rewrite U1. exact N1.
+    + rewrite U2. exact N2.
+  - intros dv Hdv (O1 & O2 & O3 & O4). rewrite Hdv. cbn [option_map]. cbv zeta.
+    eexists. split; [reflexivity|]. split; [reflexivity|]. split; [reflexivity|].
+    eapply finer_spec_compat; [| |apply next_grids_guarded; try assumption; try lia].
+    + unfold right_interval, mirrored. cbn [fst snd]. rewrite U2. rewrite <- N2. ring.
+    + unfold right_interval, mirrored. cbn [fst snd]. rewrite U1. rewrite <- N1. ring.
+    + unfold right_interval. cbn [fst]. apply integral_opp. exact I2.
+    + unfold right_interval. cbn [snd]. apply integral_opp. exact I1.
+Qed.
+
+(* ================================================================== which step runs at which scale *)
+
+Fixpoint down (j : nat) : list nat := match j with O => [] | S j' => S j' :: down j' end.
+
+Lemma rev_seq_down j : rev (seq 1 j) = down j.
+Proof.
+  induction j as [|j IH]; [reflexivity|].
+  rewrite seq_S, rev_app_distr. cbn [rev app plus down]. rewrite IH. reflexivity.
+Qed.
+
+Lemma coarse_scales_down n : coarse_scales n = down (n - 1).
+Proof. apply rev_seq_down. Qed.
+
+Lemma coarse_traces_flat rdm p j :
+  coarse_traces rdm p j = flat_map (fun j => scale_trace rdm (Z.of_nat j) (upto_msc p)) (down j).
+Proof. induction j as [|j IH]; [reflexivity|]. cbn [coarse_traces down flat_map]. rewrite IH. reflexivity. Qed.
+
+Lemma upto_msc_split pre ms post :
+  has_kind Msc pre = false -> is_kind Msc ms = true -> upto_msc (pre ++ ms :: post) = pre ++ [ms].
+Proof.
+  intros Hpre Hms. induction pre as [|s r IH]; cbn [app upto_msc].
+  - rewrite Hms. reflexivity.
+  - unfold has_kind in Hpre. cbn [existsb] in Hpre. apply orb_false_iff in Hpre as [H1 H2].
+    rewrite H1. f_equal. apply IH. exact H2.
+Qed.
+
+Lemma filter_not_msc_split pre ms post :
+  has_kind Msc pre = false -> is_kind Msc ms = true ->
+  filter not_msc (pre ++ ms :: post) = pre ++ filter not_msc post.
+Proof.
+  intros Hpre Hms. induction pre as [|s r IH]; cbn [app filter].
+  - unfold not_msc at 1. rewrite Hms. reflexivity.
+  - unfold has_kind in Hpre. cbn [existsb] in Hpre. apply orb_false_iff in Hpre as [H1 H2].
+    unfold not_msc at 1. rewrite H1. cbn [negb]. f_equal. apply IH. exact H2.
+Qed.
+
+Theorem expected_is_spec_trace pre ms post n rdm :
+  has_kind Msc pre = false -> is_kind Msc ms = true ->
+  expected_trace (pre ++ ms :: post) n rdm = spec_trace pre ms post n rdm.
+Proof.
+  intros Hpre Hms. unfold expected_trace, spec_trace.
+  rewrite coarse_traces_flat, coarse_scales_down, (upto_msc_split _ _ _ Hpre Hms).
+  f_equal. f_equal. exact (filter_not_msc_split pre ms post Hpre Hms).
+Qed.
+
+Lemma has_kind_app k a b : has_kind k (a ++ b) = has_kind k a || has_kind k b.
+Proof. unfold has_kind. apply existsb_app. Qed.
+
+(* the model of pandora.run executes exactly the prescribed callbacks *)
+Theorem run_is_spec_trace run_tbl m pre ms post n d :
+  MachineP.run_tbl_wf run_tbl = true -> MachineP.clean m ->
+  MachineP.path_ok Begin (pre ++ ms :: post) = Some d ->
+  has_kind Msc pre = false -> is_kind Msc ms = true -> (n >= 1)%nat ->
+  let p := pre ++ ms :: post in
+  let rdm := m_rdm m || has_kind Val p in
+  Machine.run run_tbl m p n = RunOk (mkM Begin [] rdm 0) (spec_trace pre ms post n rdm).
+Proof.
+  intros Hwf Hm Hp Hpre Hms Hn p rdm.
+  rewrite <- (expected_is_spec_trace pre ms post n rdm Hpre Hms).
+  apply (MachineP.run_spec run_tbl Hwf m p n d Hm Hp Hn).
+  intros _. unfold p. rewrite has_kind_app. unfold has_kind at 2. cbn [existsb]. rewrite Hms.
+  rewrite orb_true_r. reflexivity.
+Qed.
+
+(* ---------------- how many times, at which scales, each step is executed *)
+
+Lemma exec_scales_app id right a b :
+  exec_scales id right (a ++ b) = exec_scales id right a ++ exec_scales id right b.
+Proof. unfold exec_scales. rewrite filter_app, map_app. reflexivity. Qed.
+
+Lemma exec_scales_step_other id right rdm sc s : s_id s <> id ->
+  exec_scales id right (step_evs rdm sc s) = [].
+Proof.
+  intros Hne. unfold step_evs. destruct (s_kind s) as [k|]; [|reflexivity].
+  unfold evs, exec_scales. assert (E : (s_id s =? id) = false) by (apply Z.eqb_neq; exact Hne).
+  destruct rdm; cbn [filter ev_is map]; rewrite E; reflexivity.
+Qed.
+
+Lemma exec_scales_step_left rdm sc s k : s_kind s = Some k ->
+  exec_scales (s_id s) false (step_evs rdm sc s) = [sc].
+Proof.
+  intros Hk. unfold step_evs. rewrite Hk. unfold evs, exec_scales.
+  destruct rdm; cbn [filter ev_is map]; rewrite Z.eqb_refl; reflexivity.
+Qed.
+
+Lemma exec_scales_step_right rdm sc s k : s_kind s = Some k ->
+  exec_scales (s_id s) true (step_evs rdm sc s) = if rdm then [sc] else [].
+Proof.
+  intros Hk. unfold step_evs. rewrite Hk. unfold evs, exec_scales.
+  destruct rdm; cbn [filter ev_is map]; rewrite Z.eqb_refl; reflexivity.
+Qed.
+
+Lemma exec_scales_trace_notin id right rdm sc l : ~ In id (map s_id l) ->
+  exec_scales id right (scale_trace rdm sc l) = [].
+Proof.
+  induction l as [|s r IH]; intros Hn; [reflexivity|].
+  unfold scale_trace. cbn [flat_map]. rewrite exec_scales_app.
+  rewrite exec_scales_step_other by (intro E; apply Hn; left; exact E).
+  apply IH. intro H. apply Hn. right. exact H.
+Qed.
+
+Lemma exec_scales_trace_in right rdm sc l s k : NoDup (map s_id l) -> In s l -> s_kind s = Some k ->
+  exec_scales (s_id s) right (scale_trace rdm sc l) = if right then (if rdm then [sc] else []) else [sc].
+Proof.
+  induction l as [|s0 r IH]; intros Hnd Hin Hk; [destruct Hin|].
+  unfold scale_trace. cbn [flat_map]. rewrite exec_scales_app.
+  cbn [map] in Hnd. inversion Hnd as [|x xs Hx Hnd']; subst.
+  destruct Hin as [->|Hin].
+  - fold (scale_trace rdm sc r). rewrite (exec_scales_trace_notin _ _ _ _ _ Hx), app_nil_r.
+    destruct right; [eapply exec_scales_step_right | eapply exec_scales_step_left]; eassumption.
+  - rewrite exec_scales_step_other.
+    + apply IH; assumption.
+    + intro E. apply Hx. rewrite E. apply in_map. exact Hin.
+Qed.
+
+Lemma exec_scales_flat id right (f : nat -> list ev) (g : nat -> list Z) js :
+  (forall j, exec_scales id right (f j) = g j) ->
+  exec_scales id right (flat_map f js) = flat_map g js.
+Proof.
+  intros H. induction js as [|j r IH]; [reflexivity|].
+  cbn [flat_map]. rewrite exec_scales_app, H, IH. reflexivity.
+Qed.
+
+Lemma flat_map_single {A B} (f : A -> B) l : flat_map (fun x => [f x]) l = map f l.
+Proof. induction l; cbn [flat_map map app]; congruence. Qed.
+Lemma flat_map_nil {A B} (l : list A) : flat_map (fun _ => @nil B) l = [].
+Proof. induction l; cbn [flat_map app]; auto. Qed.
+
+Lemma all_scales_down n : (n >= 1)%nat -> all_scales n = map Z.of_nat (down (n - 1)) ++ [0].
+Proof.
+  intros Hn. unfold all_scales. destruct n as [|j]; [lia|]. replace (S j - 1)%nat with j by lia.
+  change (seq 0 (S j)) with (0%nat :: seq 1 j). cbn [rev]. rewrite rev_seq_down, map_app. reflexivity.
+Qed.
+
+Lemma NoDup_app_disjoint {A} (a b : list A) x : NoDup (a ++ b) -> In x a -> In x b -> False.
+Proof.
+  induction a as [|y a IH]; intros Hnd Ha Hb; [destruct Ha|].
+  cbn [app] in Hnd. inversion Hnd as [|z zs Hz Hnd']; subst.
+  destruct Ha as [->|Ha].
+  - apply Hz. apply in_or_app. right. exact Hb.
+  - exact (IH Hnd' Ha Hb).
+Qed.
+
+Lemma NoDup_app_l {A} (a b : list A) : NoDup (a ++ b) -> NoDup a.
+Proof.
+  induction a as [|y a IH]; intros Hnd; [constructor|].
+  cbn [app] in Hnd. inversion Hnd as [|z zs Hz Hnd']; subst.
+  constructor; [|exact (IH Hnd')]. intro H. apply Hz. apply in_or_app. left. exact H.
+Qed.
+
+Lemma in_map_mid_filter {A B} (g : A -> B) (f : A -> bool) a b y :
+  In y (map g (a ++ filter f b)) -> In y (map g (a ++ b)).
+Proof.
+  rewrite !in_map_iff. intros (x & E & Hx). exists x. split; [exact E|].
+  apply in_app_or in Hx. apply in_or_app. destruct Hx as [Hx|Hx]; [left; exact Hx|].
+  right. apply filter_In in Hx. tauto.
+Qed.
+
+Lemma NoDup_map_mid_filter {A B} (g : A -> B) (f : A -> bool) a b :
+  NoDup (map g (a ++ b)) -> NoDup (map g (a ++ filter f b)).
+Proof.
+  induction a as [|x a IH].
+  - cbn [app]. induction b as [|x b IHb]; intros Hnd; [constructor|].
+    cbn [map] in Hnd. inversion Hnd as [|z zs Hz Hnd']; subst. cbn [filter].
+    destruct (f x); [|apply IHb; exact Hnd'].
+    cbn [map]. constructor; [|apply IHb; exact Hnd'].
+    intro H. apply Hz. exact (in_map_mid_filter g f [] b _ H).
+  - intros Hnd. cbn [app map] in *. inversion Hnd as [|z zs Hz Hnd']; subst.
+    constructor; [|apply IH; exact Hnd'].
+    intro H. apply Hz. exact (in_map_mid_filter g f a b _ H).
+Qed.
+
+Section Counting.
+  Variables (pre : list step) (ms : step) (post : list step) (n : nat) (rdm : bool).
+  Hypothesis Hnd : NoDup (map s_id (pre ++ ms :: post)).
+  Hypothesis Hn : (n >= 1)%nat.
+  Hypothesis Hpre : has_kind Msc pre = false.
+  Hypothesis Hms : is_kind Msc ms = true.
+
+  Lemma split_p : pre ++ ms :: post = (pre ++ [ms]) ++ post.
+  Proof. rewrite <- app_assoc. reflexivity. Qed.
+
+  Lemma nd_coarse : NoDup (map s_id (pre ++ [ms])).
+  Proof. rewrite split_p, map_app in Hnd. exact (NoDup_app_l _ _ Hnd). Qed.
+
+  Lemma nd_final : NoDup (map s_id (pre ++ filter not_msc post)).
+  Proof.
+    apply NoDup_map_mid_filter.
+    rewrite map_app in *. cbn [map] in Hnd. exact (NoDup_remove_1 _ _ _ Hnd).
+  Qed.
+
+  Lemma ms_kind : s_kind ms = Some Msc.
+  Proof.
+    unfold is_kind in Hms. destruct (s_kind ms) as [k|]; [|discriminate].
+    apply MachineP.kind_eqb_eq in Hms. congruence.
+  Qed.
+
+  Lemma coarse_part id right (g : nat -> list Z) :
+    (forall j, exec_scales id right (scale_trace rdm (Z.of_nat j) (pre ++ [ms])) = g j) ->
+    exec_scales id right (spec_trace pre ms post n rdm)
+    = flat_map g (down (n - 1)) ++ exec_scales id right (scale_trace rdm 0 (pre ++ filter not_msc post)).
+  Proof.
+    intros H. unfold spec_trace. rewrite exec_scales_app, coarse_scales_down. f_equal.
+    apply exec_scales_flat. exact H.
+  Qed.
+
+  (* a step before the multiscale step: once per scale, coarse to fine, on the left data
+     (and on the right data when the right disparity map is computed) *)
+  Theorem pre_steps_every_scale s k : In s pre -> s_kind s = Some k ->
+    exec_scales (s_id s) false (spec_trace pre ms post n rdm) = all_scales n /\
+    exec_scales (s_id s) true (spec_trace pre ms post n rdm) = if rdm then all_scales n else [].
+  Proof.
+    intros Hin Hk.
+    assert (I1 : In s (pre ++ [ms])) by (apply in_or_app; left; exact Hin).
+    assert (I2 : In s (pre ++ filter not_msc post)) by (apply in_or_app; left; exact Hin).
+    split.
+    - rewrite (coarse_part _ _ (fun j => [Z.of_nat j])).
+      + rewrite (exec_scales_trace_in false rdm 0 _ s k nd_final I2 Hk).
+        rewrite flat_map_single. symmetry. apply all_scales_down. exact Hn.
+      + intros j. exact (exec_scales_trace_in false rdm _ _ s k nd_coarse I1 Hk).
+    - rewrite (coarse_part _ _ (fun j => if rdm then [Z.of_nat j] else [])).
+      + rewrite (exec_scales_trace_in true rdm 0 _ s k nd_final I2 Hk).
+        destruct rdm.
+        * rewrite flat_map_single. symmetry. apply all_scales_down. exact Hn.
+        * rewrite flat_map_nil. reflexivity.
+      + intros j. exact (exec_scales_trace_in true rdm _ _ s k nd_coarse I1 Hk).
+  Qed.
+
+  (* a step after the multiscale step: once, at scale 0 *)
+  Theorem post_steps_once s k : In s post -> not_msc s = true -> s_kind s = Some k ->
+    exec_scales (s_id s) false (spec_trace pre ms post n rdm) = [0] /\
+    exec_scales (s_id s) true (spec_trace pre ms post n rdm) = if rdm then [0] else [].
+  Proof.
+    intros Hin Hnm Hk.
+    assert (I2 : In s (pre ++ filter not_msc post)).
+    { apply in_or_app. right. apply filter_In. split; assumption. }
+    assert (Hno : ~ In (s_id s) (map s_id (pre ++ [ms]))).
+    { intro H. rewrite split_p, map_app in Hnd.
+      exact (NoDup_app_disjoint _ _ _ Hnd H (in_map s_id _ _ Hin)). }
+    split.
+    - rewrite (coarse_part _ _ (fun _ => [])).
+      + rewrite flat_map_nil. exact (exec_scales_trace_in false rdm 0 _ s k nd_final I2 Hk).
+      + intros j. apply exec_scales_trace_notin. exact Hno.
+    - rewrite (coarse_part _ _ (fun _ => [])).
+      + rewrite flat_map_nil. exact (exec_scales_trace_in true rdm 0 _ s k nd_final I2 Hk).
+      + intros j. apply exec_scales_trace_notin. exact Hno.
+  Qed.
+
+  (* the multiscale step itself: at every scale but the last one *)
+  Theorem msc_step_coarse_scales :
+    exec_scales (s_id ms) false (spec_trace pre ms post n rdm) = map Z.of_nat (coarse_scales n).
+  Proof.
+    assert (I1 : In ms (pre ++ [ms])) by (apply in_or_app; right; left; reflexivity).
+    assert (Hno : ~ In (s_id ms) (map s_id (pre ++ filter not_msc post))).
+    { intro H. apply (in_map_mid_filter s_id not_msc pre post) in H.
+      rewrite map_app in *. cbn [map] in Hnd. exact (NoDup_remove_2 _ _ _ Hnd H). }
+    rewrite (coarse_part _ _ (fun j => [Z.of_nat j])).
+    - rewrite (exec_scales_trace_notin _ _ _ _ _ Hno), app_nil_r, flat_map_single, coarse_scales_down.
+      reflexivity.
+    - intros j. exact (exec_scales_trace_in false rdm _ _ ms Msc nd_coarse I1 ms_kind).
+  Qed.
+End Counting.
